@@ -12,6 +12,7 @@ func init() {
 	vhRegister("VH_C18_Contains", func(p []int) { VH_C18_Contains(p[0], p[1], p[2]) })
 	vhRegister("VH_C18_Equal", func(p []int) { VH_C18_Equal(p[0], p[1], p[2]) })
 	vhRegister("VH_C18_AddSeq", func(p []int) { VH_C18_AddSeq(p[0]) })
+	vhRegister("VH_C18_AddTwice", func(p []int) { VH_C18_AddTwice(p[0], p[1]) })
 }
 
 var vhSIDs = []SID{
@@ -279,4 +280,53 @@ func VH_C18_AddSeq(n int) {
 		vhAssert(vhIsCanon(res[vhSIDs[s]]) == 1, "canonical after a sequence of AddGTID")
 	}
 	vhCover("addseq")
+}
+
+// VH_C18_AddTwice: sets are values.  From one base set (k canonical intervals whose slice has
+// `spare` unused capacity, as slices decoded from a SID block or grown by an earlier merge do)
+// two sets are derived, a = base + g1 and then b = base + g2.  The later AddGTID must not change
+// the earlier result: a is still exactly base + g1 for a universally quantified probe element,
+// b is exactly base + g2, and the base is unchanged.
+func VH_C18_AddTwice(k, spare int) {
+	ivs := vhCanonList(k)
+	held := make([]interval, k, k+spare)
+	copy(held, ivs)
+	base := Mysql56GTIDSet{}
+	if k > 0 {
+		base[vhSIDs[0]] = held
+	}
+	s1, s2 := vhChoose(2), vhChoose(2) // each GTID on the SID of the base or on another one
+	g1 := Mysql56GTID{Server: vhSIDs[s1], Sequence: vhI64()}
+	g2 := Mysql56GTID{Server: vhSIDs[s2], Sequence: vhI64()}
+	vhAssume(g1.Sequence >= 1 && g1.Sequence <= vhMaxSeq && g2.Sequence >= 1 && g2.Sequence <= vhMaxSeq)
+	a, okA := base.AddGTID(g1).(Mysql56GTIDSet)
+	vhAssert(okA, "result is a MySQL 5.6 set")
+	b, okB := base.AddGTID(g2).(Mysql56GTIDSet)
+	vhAssert(okB, "result is a MySQL 5.6 set")
+	x := vhI64()
+	vhAssume(x >= 1 && x <= vhMaxSeq)
+	for s := 0; s < 2; s++ {
+		var before []interval
+		if s == 0 {
+			before = ivs
+		}
+		wantA, wantB := vhMember(before, x), vhMember(before, x)
+		if s == s1 {
+			wantA |= vhB2U(x == g1.Sequence)
+		}
+		if s == s2 {
+			wantB |= vhB2U(x == g2.Sequence)
+		}
+		vhAssert(vhMember(a[vhSIDs[s]], x) == wantA, "an earlier AddGTID result is still exactly base + its GTID after another AddGTID on the same base")
+		vhAssert(vhIsCanon(a[vhSIDs[s]]) == 1, "earlier result still canonical")
+		vhAssert(vhMember(b[vhSIDs[s]], x) == wantB, "the later AddGTID result is exactly base + its GTID")
+		vhAssert(vhIsCanon(b[vhSIDs[s]]) == 1, "later result canonical")
+	}
+	if k > 0 {
+		vhAssert(len(base[vhSIDs[0]]) == k, "base interval count unchanged")
+		for i := 0; i < k; i++ {
+			vhAssert(base[vhSIDs[0]][i] == ivs[i], "base intervals unchanged")
+		}
+	}
+	vhCover("addtwice")
 }
